@@ -1,5 +1,5 @@
 """C01 - a conflict-free grammar's parser accepts exactly the grammar's language."""
-import vlib, report, parsecheck, families, lr1
+import vlib, report, parsecheck, families, lr1, kernel, c01_table
 
 def units(tier, seed):
     d = {g.name: g for g in families.g_dir()}
@@ -23,10 +23,15 @@ def run(tier, seed):
         R.extra.setdefault('oracle_validation', {})[g.name] = {'strings_compared_with_earley': n}
         for L in Ls:
             cases.append(parsecheck.ParseCase(wd, g, L, ['accept'], lr=lr, witness='OUT[O_OK] == 1 && R.ok' if lr1.bounds(g, lr, L)['accepted'] else 'OUT[O_NMSG] == 1 && !R.ok'))
+    # table level: for EVERY unit of the directed family (and the random ones) the real table is the canonical LR(1) table up to state renaming
+    tg = families.g_dir() + families.g_rand(seed, 3 if tier == 'quick' else 24)
+    kernel.run_kernels(R, c01_table.kernels(wd, tg), witness=(tier != 'quick'))
+    R.extra['table_isomorphism_units'] = len(tg)
     wit = [c for i, c in enumerate(cases) if tier == 'thorough' or i % 3 == 0]
     report.run_parse_cases(R, cases, witness_for=wit, timeout=900 if tier == 'quick' else 2400, mem_gb=10 if tier == 'quick' else 24)
     R.outside = ['grammars outside the generated families', 'inputs longer than the stated LEN', 'whole table constructions on symbolic grammars (DESIGN 2.2)',
                  'token level: terms are custom_terms recognised by a one-byte custom lexer (generated lexer: C03/C04)']
     R.assumptions = ['token-level custom lexer maps byte a+k to term k', 'options: skip_whitespace=false', 'program dimension is a generated finite family']
-    return R.finish('one query per (grammar unit, exact input length): all 256^L byte strings decided by CBMC/MiniSat against the reference canonical LR(1) interpreter; '
+    return R.finish('table level: for every unit and every (state, symbol) the real cell equals the canonical LR(1) action / goto up to the item-set bijection (so the unit\'s parser accepts the grammar\'s language for inputs of ANY length, '
+                    'given the driver, which the exact-length queries and the reduce-step kernel of C02 check); one query per (grammar unit, exact input length): all 256^L byte strings decided by CBMC/MiniSat against the reference canonical LR(1) interpreter; '
                     'non-trivial = distinct (unit, L) with at least one property assertion in the sliced formula')
